@@ -327,6 +327,12 @@ func Combinations(n, k int64, f func([]int64)) {
 // similar to returning index*2^shift.
 func CalculateArithmeticShift(index int64, shift int64) int64 {
 
+	// -shift overflows for math.MinInt64 (negative shift amount panic);
+	// every right shift by 64 or more gives the same result as a shift by 64
+	if shift < -64 {
+		shift = -64
+	}
+
 	// determine if shift is non-negative
 	if shift >= 0 {
 		return index << shift
